@@ -207,7 +207,7 @@ pub fn run_free(case: &ParCase, env_workers: Option<&str>, use_config_workers: b
     let wall_ms = t0.elapsed().as_millis();
     // helper threads of a returned call must be gone; allow the OS a moment to reap them
     let mut after = thread_count();
-    let deadline = Instant::now() + Duration::from_millis(if timed_out { 0 } else { 1500 });
+    let deadline = Instant::now() + Duration::from_millis(if timed_out { 0 } else { 6000 });
     while after > before && Instant::now() < deadline {
         std::thread::sleep(Duration::from_millis(10));
         after = thread_count();
